@@ -354,9 +354,12 @@ class RandomWalk(Processor):
         while True:
 
             new_point, index = _take_step(vector_bundle, step_length, last_point, self.maxdim)
+            # the new point is wrapped into the box so the direction of the step
+            # has to be taken from the step vector and not from the two points
+            step_vector = vector_bundle[index] * step_length
             if fulfill_geometrical_constraints(new_point, self.molecule.nodes[current_node])\
                 and self.checks_milestones(current_node, new_point, step_length)\
-                and is_restricted(new_point, last_point, self.molecule.nodes[current_node])\
+                and is_restricted(last_point + step_vector, last_point, self.molecule.nodes[current_node])\
                 and self.bendiness(new_point, current_node)\
                 and not self._is_overlap(new_point, current_node):
 
